@@ -118,6 +118,7 @@ def run_obligation(ctx, ob, cfg):
 
     def body(p):
         ip = Interp(ctx, p, unroll=getattr(ob, 'unroll', 8))
+        ctx.cur_path = p
         holder['ip'] = ip
         try:
             r = ob.body(ip, p)
